@@ -267,7 +267,13 @@ NewSid(b) == 50 + Len(b.kerns)
 C(cls, b, c) == [cls |-> cls, body |-> b, ctx |-> c]
 HasNrd(b) == \E i \in Idx(b.kerns) : b.kerns[i].kind = "nrd"
 
-Corruptions(b, c) ==
+\* A model body can be realised iff amounts are non-negative and no kernel excess is the zero scalar.
+WellFormed(b) ==
+  /\ \A i \in Idx(b.ins) : b.ins[i].v >= 0
+  /\ \A i \in Idx(b.outs) : b.outs[i].v >= 0
+  /\ \A i \in Idx(b.kerns) : b.kerns[i].x # 0 /\ b.kerns[i].fee >= 0
+
+RawCorruptions(b, c) ==
   \* amount +-1 on an output / input (proof regenerated for the new amount: only the sums can tell)
      {C("amount_out_plus",  [b EXCEPT !.outs[i].v = @ + 1], c) : i \in Idx(b.outs)}
   \cup {C("amount_out_minus", [b EXCEPT !.outs[i].v = @ - 1], c) : i \in {j \in Idx(b.outs) : b.outs[j].v > 0}}
@@ -318,7 +324,7 @@ Corruptions(b, c) ==
         ELSE {})
   \* reward over-claim by a non-coinbase output: one unit moves from the coinbase output to a plain one
   \cup {C("reward_overclaim_plain_output", [b EXCEPT !.outs[i].v = @ + 1, !.outs[j].v = @ - 1], c) :
-          i \in {m \in Idx(b.outs) : ~b.outs[m].cb}, j \in {m \in Idx(b.outs) : b.outs[m].cb}}
+          i \in {m \in Idx(b.outs) : ~b.outs[m].cb}, j \in {m \in Idx(b.outs) : b.outs[m].cb /\ b.outs[m].v > 0}}
   \* swapped range proof / signature
   \cup {C("proof_swapped", [b EXCEPT !.outs[i].pf = FALSE], c) : i \in Idx(b.outs)}
   \cup {C("signature_swapped", [b EXCEPT !.kerns[i].sg = FALSE], c) : i \in Idx(b.kerns)}
@@ -334,6 +340,8 @@ Corruptions(b, c) ==
              \cup (IF HasNrd(b) THEN {C("nrd_before_hf3", b, [c EXCEPT !.ver = NrdVersion - 1]),
                                       C("nrd_disabled", b, [c EXCEPT !.nrd = FALSE])} ELSE {})
         ELSE {})
+
+Corruptions(b, c) == {k \in RawCorruptions(b, c) : WellFormed(k.body)}
 
 CorruptionChoices(b, c, a) == Corruptions(b, c)     \* MC modules may substitute a sample
 
